@@ -28,6 +28,11 @@ def run(pid, tier, only_cases=None, debug=False):
         cases = [CT.gen_case(rng, "c15-%d" % i, rng.choice(["C01", "C02", "C11"])) for i in range(n)]
         import tablemc
         cases += tablemc.shape_cases("C02", tier, sc, seed)[: (12 if tier == "quick" else 400)]
+        # one object referenced from more blocks than fit an object record: the writers omit its position list (D21; the recorded case)
+        with open(os.path.join(C.VERIF, "findings", "D21-c-refsfor-omitted-position-list.json")) as f:
+            probe = json.load(f)["case"]
+        probe = dict(probe, id="omitted-positions")
+        cases.append(probe)
         if only_cases is not None:
             cases = only_cases
         for c in cases:
